@@ -108,6 +108,12 @@ def base_configs(tier: str) -> List[dict]:
     noexpr_probe = _sweep("VGainProbe", {}, {"t": {"lo": 1.0, "hi": 2.0, "steps": 2}, "u": {"values": [1.0]}}, collection=None, broadcast=True, mode="by_position")
     noexpr_probe["context_key"] = "res"
     out.append(cfg([_sweep("VSrcDef", {}, {"t": {"values": [1.0, 2.0]}}), n("slice:VMulDef:FloatDataCollection"), n("VSum"), noexpr, n("VSum"), noexpr_probe]))
+    # a sweep that leaves FOUR required parameters of the wrapped processor to the node configuration / the context (whatever lists
+    # them - metadata, required keys - has 24 possible orders)
+    many = _sweep("VFive", {"factor": "t"}, {"t": {"values": [1.0, 2.0]}})
+    many["parameters"] = {"addend": 0.5}
+    out.append(cfg([n("VSrc", {"value": 2.0}), many, n("VSum")]))
+    out.append(cfg([n("VSrc", {"value": 2.0}), n("VFive", {"gain": 1.0}), _sweep("VFive", {"bias": "t + 1.0", "factor": "t"}, {"t": {"values": [1.0]}}), n("VSum")]))
     # run spaces
     out.append(cfg([gen.SYMBOLS[s]["node"] for s in ("src_ctx", "failif", "probe_r")], RUN_SPACES[0]))
     out.append(cfg([gen.SYMBOLS[s]["node"] for s in ("src_ctx", "two")], RUN_SPACES[1]))
